@@ -1,7 +1,7 @@
 use serde::{Deserialize, Serialize};
 
 use crate::{
-    Document, FatToken,
+    Document, FatToken, Span,
     linting::{Lint, LintKind, Suggestion},
 };
 
@@ -33,7 +33,8 @@ impl LintContext {
             .pulled_by(2)
             .map(|v| document.token_indices_intersecting(v))
             .unwrap_or_default();
-        let sequel_tokens = document.token_indices_intersecting(lint.span.with_len(2).pushed_by(2));
+        let sequel_tokens =
+            document.token_indices_intersecting(Span::new_with_len(lint.span.end, 2));
 
         let tokens = prequel_tokens
             .into_iter()
